@@ -5,10 +5,10 @@ From Verif Require Import Lib.Base Lib.Sx Gen.Gen_json Model.JsonPlus.
 From Verif Require Import Proofs.JsonPlusIndex Proofs.JsonPlusSplit Proofs.JsonPlusScan.
 Open Scope N_scope.
 
-Lemma read_more_gen space : forall segs loop fin got segs' serr',
-  read_more space loop segs fin = (got, segs', serr') ->
+Lemma read_more_gen space dt : forall segs loop fin got segs' serr',
+  read_more space loop segs fin dt = (got, segs', serr') ->
   (got = [] /\ (serr' = Some fin \/ serr' = Some E_NOPROGRESS)) \/
-  (serr' = None /\ got <> [] /\ got ++ concat segs' = concat segs).
+  (got <> [] /\ (serr' = None \/ serr' = Some fin) /\ got ++ concat segs' = concat segs).
 Proof.
   induction segs as [|seg rest IH]; intros loop fin got segs' serr' H.
   - cbn in H. inversion H; subst. left. auto.
@@ -17,10 +17,14 @@ Proof.
       destruct (IH _ _ _ _ _ H) as [A|(A & B & C)]; [left; exact A|right]. repeat split; auto.
     + destruct (space =? 0) eqn:E0; [inversion H; subst; left; auto|]. apply N.eqb_neq in E0.
       right. unfold takeN in H. destruct (take (N.to_nat space) (c :: seg)) as [[a r]|] eqn:Et.
-      * destruct (take_some _ _ _ _ Et) as [Hb Hl]. inversion H; subst got segs' serr'.
-        assert (a <> []) by (intros ->; cbn in Hl; lia). repeat split; auto.
-        destruct r as [|r0 r]; cbn [concat]; rewrite Hb; [now rewrite app_nil_r|now rewrite app_assoc].
-      * inversion H; subst. repeat split; auto. discriminate.
+      * destruct (take_some _ _ _ _ Et) as [Hb Hl].
+        assert (a <> []) by (intros ->; cbn in Hl; lia).
+        destruct r as [|r0 r].
+        -- rewrite app_nil_r in Hb. destruct rest as [|s2 rest]; [destruct dt|]; inversion H; subst got segs' serr'; clear H;
+             cbn [concat]; rewrite ?app_nil_r; repeat split; auto; now rewrite Hb.
+        -- inversion H; subst got segs' serr'; clear H. repeat split; auto. cbn [concat]. rewrite Hb. now rewrite app_assoc.
+      * destruct rest as [|s2 rest]; [destruct dt|]; inversion H; subst got segs' serr'; clear H;
+          cbn [concat]; rewrite ?app_nil_r; repeat split; auto; discriminate.
 Qed.
 
 Definition good (r : list bytes * res unit) : Prop := (forall s, snd r <> Panic s) /\ snd r <> Err E_FUEL.
@@ -32,10 +36,10 @@ Proof. unfold set_err. destruct serr as [c|]; cbn; intros; auto. destruct (c =? 
 Lemma err_neq (a b : N) : a <> b -> @Err unit a <> Err b.
 Proof. congruence. Qed.
 
-Lemma drain_total : forall fuel st segs fin serr out,
+Lemma drain_total dt : forall fuel st segs fin serr out,
   fin <> E_FUEL -> serr_ok serr ->
   (N.to_nat (plen st) + match serr with None => S (2 * length (concat segs)) | Some _ => 0 end < fuel)%nat ->
-  good (drain fuel st segs fin serr out).
+  good (drain fuel st segs fin dt serr out).
 Proof.
   induction fuel as [|fuel IH]; intros st segs fin serr out Hfin Hs Hm; [lia|].
   cbn [drain].
@@ -51,24 +55,25 @@ Proof.
     + split; cbn; [intros s; destruct (e =? 0); discriminate|]. destruct (e =? 0); [discriminate|]. cbn in Hs. congruence.
     + match goal with |- good (if ?c then _ else _) => destruct c end.
       * split; cbn; [discriminate|unfold E_TOOLONG, E_FUEL; congruence].
-      * match goal with |- context [read_more ?sp 0 segs fin] => destruct (read_more sp 0 segs fin) as [[got segs'] serr'] eqn:R end.
+      * match goal with |- context [read_more ?sp 0 segs fin dt] => destruct (read_more sp 0 segs fin dt) as [[got segs'] serr'] eqn:R end.
         apply read_more_gen in R. apply IH; auto.
-        -- destruct R as [(_ & [-> | ->]) | (-> & _)]; cbn; auto. unfold E_NOPROGRESS, E_FUEL. lia.
+        -- destruct R as [(_ & [-> | ->]) | (_ & [-> | ->] & _)]; cbn; auto. unfold E_NOPROGRESS, E_FUEL. lia.
         -- cbn [plen].
            match goal with |- context [plen ?s] => assert (Hp : plen s = plen st) end.
            { repeat match goal with |- context [if ?c then _ else _] => destruct c end; reflexivity. }
-           rewrite Hp. destruct R as [(-> & [-> | ->]) | (-> & Hg & Hc)].
+           rewrite Hp. destruct R as [(-> & [-> | ->]) | (Hg & [-> | ->] & Hc)].
            ++ change (lenN []) with 0. lia.
            ++ change (lenN []) with 0. lia.
            ++ rewrite <- Hc, app_length in Hm. rewrite lenN_spec.
               assert (length got <> 0)%nat by (destruct got; [congruence|cbn; lia]). lia.
+           ++ rewrite <- Hc, app_length in Hm. rewrite lenN_spec. lia.
   - (* Tok *)
     destruct ((adv <? 0)%Z || (Z.of_N (plen st) <? adv)%Z) eqn:C1.
     + split; cbn; [discriminate|]. apply err_neq, set_err_ok; auto. unfold E_ADVANCE, E_FUEL. lia.
     + apply orb_false_iff in C1 as [A B]. destruct (adv =? 0)%Z eqn:C2.
       * split; cbn; [discriminate|unfold E_STUCK, E_FUEL; congruence].
       * assert (Hgo : forall so, good (drain fuel {| pend := skipn (N.to_nat (Z.to_N adv)) (pend st); plen := plen st - Z.to_N adv;
-                          start := start st + Z.to_N adv; cap := cap st |} segs fin serr so)).
+                          start := start st + Z.to_N adv; cap := cap st |} segs fin dt serr so)).
         { intros so. apply IH; auto. cbn [plen]. lia. }
         destruct serr as [e|]; [|destruct tok; apply Hgo].
         destruct tok; [apply Hgo|]. destruct (e =? 0); [apply Hgo|].
@@ -78,14 +83,14 @@ Proof.
 Qed.
 
 (* [jsonplus_total] the comment-aware reader never panics and always terminates *)
-Lemma jsonplus_total segs fin :
+Lemma jsonplus_total segs fin dt :
   fin <> E_FUEL ->
-  (forall s, snd (reader segs fin) <> Panic s) /\ snd (reader segs fin) <> Err E_FUEL.
+  (forall s, snd (reader_dt segs fin dt) <> Panic s) /\ snd (reader_dt segs fin dt) <> Err E_FUEL.
 Proof.
-  intros Hfin. unfold reader.
-  pose proof (drain_total (drain_fuel segs) sc0 segs fin None [] Hfin I) as D.
+  intros Hfin. unfold reader_dt.
+  pose proof (drain_total dt (drain_fuel segs) sc0 segs fin None [] Hfin I) as D.
   cbn [plen sc0] in D. specialize (D ltac:(unfold drain_fuel; lia)).
-  destruct (drain _ sc0 segs fin None []) as [o r]. exact D.
+  destruct (drain _ sc0 segs fin dt None []) as [o r]. exact D.
 Qed.
 
 Lemma strip_total d : (forall s, snd (strip d) <> Panic s) /\ snd (strip d) <> Err E_FUEL.
